@@ -55,7 +55,21 @@ Verdict ==
               ELSE IF Tr.direct # (IF Names(g) = {} THEN "no_steps" ELSE code) THEN "direct"
               ELSE IF Accepted /\ Flag # CodeHitl(g) THEN "flag"
               ELSE "ok"
-  IN <<"VERDICT", tid, clause, 1, feature, conf, why, hitl>>
+      \* conformance of the drawn representation (build.py) with ReprNodeIds / ReprEdgeSet -- graphs with at most one stop class
+      rp == Tr.repr
+      rnodes == {rp.nodes[i][1] : i \in 1..Len(rp.nodes)}
+      redges == {<<rp.edges[i][1], rp.edges[i][2], rp.edges[i][3]>> : i \in 1..Len(rp.edges)}
+      kinds == \A i \in 1..Len(rp.nodes) :
+                 rp.nodes[i][2] = (IF rp.nodes[i][1] \in Names(g) THEN "step"
+                                   ELSE IF rp.nodes[i][1] = "external_step" THEN "external" ELSE "event")
+      rconf == IF Cardinality(StopTypes(g)) > 1 THEN "skipped"
+               ELSE IF rp.ok # 1 THEN "repr_raised"
+               ELSE IF rp.dup_ids # 0 THEN "repr_duplicate_node_ids"
+               ELSE IF rnodes # ReprNodeIds(g) THEN "repr_nodes"
+               ELSE IF ~kinds THEN "repr_node_kinds"
+               ELSE IF redges # ReprEdgeSet(g) THEN "repr_edges"
+               ELSE "ok"
+  IN <<"VERDICT", tid, clause, 1, feature, conf, why, hitl, rconf>>
 
 Init == tid \in 1..Len(T.traces) /\ done = FALSE
 Next == /\ ~done
